@@ -138,7 +138,9 @@ impl PCheck for C14 {
 
 fn tweak(g: &mut GenCfg, rng: &mut Rng) {
     let mut a: Vec<u32> = "ab1\n".chars().map(|c| c as u32).collect();
-    let extra = [0x10000u32, 0x10400, 0x10428, 0x1E900, 0x1E922, 0x1F600, 0x10FFFF, 0xE9, 0xFFFF, 0x212A, 0x17F, 0x20E3, 0xFE0F, 0x23];
+    // (U+10061, U+10062, U+10031, U+1000A, U+20061: supplementary characters whose low 16 bits are the
+    // base alphabet's ASCII characters -- a truncated code point would alias them)
+    let extra = [0x10000u32, 0x10400, 0x10428, 0x1E900, 0x1E922, 0x1F600, 0x10FFFF, 0xE9, 0xFFFF, 0x212A, 0x17F, 0x20E3, 0xFE0F, 0x23, 0x10061, 0x10062, 0x10031, 0x1000A, 0x20061, 0x10061, 0x10031];
     for _ in 0..rng.range(1, 3) {
         a.push(*rng.pick(&extra));
     }
